@@ -235,7 +235,31 @@ static void run_case(struct vh_rng *r)
         else handles0[0][handles0_n[0]++] = root;   /* the original handle goes to thread 0 */
         viol_content = 0;
         run_threads(nthr, shared_thread, ctx, &res, st);
-        ubuf_mgr_vacuum(blk_mgr[m]);
+        /* sequential probe on the same manager: with pools, the shared-area
+         * descriptors released by the threads are recycled here, so a counter
+         * left wrong by a racy release shows as a sole owner refused, or a
+         * write granted while a duplicate is alive */
+        {
+            struct ubuf *x = ubuf_block_alloc(blk_mgr[m], 12);
+            uint8_t *pw; int pws = -1;
+            if (!x || !ubase_check(ubuf_block_write(x, 0, &pws, &pw)))
+                vh_violation("c09:shared-count-wrong-after-concurrent-release", "a freshly allocated buffer (recycled descriptor) is refused a write mapping: its owner count is not 1");
+            ubuf_block_unmap(x, 0);
+            struct ubuf *y = ubuf_dup(x);
+            pws = -1;
+            if (y && ubase_check(ubuf_block_write(x, 0, &pws, &pw))) {
+                ubuf_block_unmap(x, 0);
+                vh_violation("c09:shared-count-wrong-after-concurrent-release", "a write mapping was granted on a buffer that has a live duplicate: the owner count of the recycled descriptor is wrong");
+            }
+            ubuf_free(y);
+            pws = -1;
+            if (!ubase_check(ubuf_block_write(x, 0, &pws, &pw)))
+                vh_violation("c09:shared-count-wrong-after-concurrent-release", "sole owner again after the duplicate was freed, but the write mapping is refused");
+            ubuf_block_unmap(x, 0);
+            ubuf_free(x);
+            VH_COUNT("shared.recycling_probes");
+        }
+        if (vh_chance(R, 1, 3)) ubuf_mgr_vacuum(blk_mgr[m]);
         if (viol_content)
             vh_violation("c09:shared-area-content", "a live handle read wrong content / failed (area released early?)");
         if (stt->bad_free)
